@@ -18,9 +18,18 @@ CHECKS = {
  "C08": ("enumx", "4 C08", "bounded-exhaustive enumeration of chain lists x header maps against an independent reference evaluator on the real ExtAuthZFilter.Check (mock and real OIDC filters)",
          "All chain lists of length 0..3 (filter sequences <=2 quick, <=3 plus length-4 lists thorough) x allow_unmatched x 6 header maps: status code, answering filter and number of OIDC filters reached equal the reference (first matching chain, conjunction with short-circuit, default deny).",
          "Alphabet-bounded; lower-case request header names."),
+ "C09": ("schedx+seqx", "4 C09", "exhaustive schedule exploration (pre-emption bounded) of logout vs concurrent checks on the real handler and stores under a cooperative scheduler, plus a sequential BFS for the logout answer",
+         "All interleavings at store-call/token-call granularity (bound 2 quick; unbounded 2 threads + bound 3 for 3 threads thorough) of a logout with checks on a fresh/expired/mid-login session, memory and Redis: no OK produced after the logout answer and no OK on the follow-up request, except the listed known findings; the logout answer is the end-session redirect with an expired cookie, or an error when the removal failed.",
+         "Atomic blocks between environment calls; known findings for the refresh/callback write that re-creates a removed session."),
+ "C10": ("seqx", "4 C10", "explicit-state BFS over store operation/clock histories with a candidate-set (relational) reference of created/last-use times",
+         "For 6 (absolute, idle) pairs and both stores, every history up to depth 8 (11 thorough, two ids at depth 8) without any manual sweep: no read returns data past creation+absolute or last-use+idle, none drops a session more than one second inside both limits, activity never moves the absolute limit.",
+         "Store level with a virtual clock; one-second band; the system-level real-time replay lives in C18's check."),
  "C11": ("seqx", "4 C11", "explicit-state BFS from the logged-in state over many token lifetimes against a ledger-keeping provider; reference merge as oracle",
          "Every refresh-grant request in every explored history (depth 9/12) carries the provider's current refresh token and the client credentials; on an honest 200 the stored and forwarded result equals the reference merge; on any failure the request is denied, the stale session is gone and a re-login redirect with a new cookie is answered.",
          "Unparsable id_token in a refresh answer is outside the alphabet; expiry compared with 10 s tolerance."),
+ "C12": ("seqx+schedx", "4 C12", "explicit-state BFS differential (memory vs Redis vs plain map, two Redis store instances) to saturation, plus exhaustive interleavings of the memory store with a brute-force linearizability check",
+         "The sequential state space (625 abstract states x 41 operations) is explored until no new state appears: every read and the whole content agree with the plain-map reference on both stores, whichever Redis instance serves the operation; every interleaving (at each lock operation) of the 2-3 thread harnesses is linearizable w.r.t. the reference.",
+         "Time-outs 0 (expiry is C10's); Clear's error on an absent id not compared."),
  "C13": ("enumx", "4 C13", "bounded-exhaustive enumeration of client ids/scopes/URIs/targets judged by a hand-written RFC 3986 splitter and form decoder",
          "Full product (1512 / 3024 cases): the login Location splits into the configured authorization endpoint plus exactly the required parameters, each decoding to the configured/issued value; the post-login Location equals the first requested URL byte for byte; both redirects carry no-cache.",
          "Independent parser instead of net/url; exotic callback URIs are judged on the redirect_uri parameter only."),
